@@ -288,6 +288,11 @@ def coef_atoms(d, volume=True, spacetime=False):
             ("T1*T1", mul(T1, T1), False),
             ("T1-T1b", ["sub", T1, add(mul(f, f), c(2.5))], False),
             ("Tm1*Tm2", mul(add(mul(f, f, f), c(-1.0)), add(mul(f, f, f), c(-2.0))), False)]
+    # both orientations of a non-commutative operation on the same two compound operands
+    g = ["field", "g"]
+    A, B = add(mul(f, f), c(1.5)), add(mul(g, g), p)
+    out += [("mirror-sub", mul(["sub", A, B], add(["sub", B, A], c(3.0))), False),
+            ("mirror-div", add(["div", A, add(B, c(2.0))], mul(c(2.0), ["div", add(B, c(2.0)), A])), True)]
     if d >= 2:
         x1 = comp(["x"], 1)
         T2 = add(mul(x0, x1), p)
@@ -358,6 +363,8 @@ def vector_coef_forms(d):
         ("grad_w", mul(["tr", ["grad", w, False]], U, Vv)),
         ("div_w", mul(["diverg", w, False], U, Vv)),
         ("slice", ["inner", comp(["jac"], ["slice", None, None, None], 0), gu]),
+        ("skew_w", ["inner", ["dot", ["sub", ["grad", w, False], ["T", ["grad", w, False]]], gu], gv]),
+        ("skew_M", ["inner", ["dot", ["sub", M, ["T", M]], gu], gv]),
     ]
     if d == 3:
         forms += [("cross", ["inner", ["cross", gu, b], gv]),
